@@ -46,3 +46,24 @@ Definition num_ok (x : pynum) : bool :=
   match x with PyInt n => n <? 2147483648 | PyFloat b => b <? 18446744073709551616 end.
 Definition dp_ok (d : pydp) : bool :=
   (N.of_nat (length (d_name d)) <? 2147483648) && num_ok (d_ts d) && num_ok (d_val d).
+
+(* ---- protocol 4 (the default since Python 3.8): PROTO 4, one FRAME around the body when it has at least 4
+   bytes (bodies below 64 KiB: a single frame), SHORT_BINUNICODE for names below 256 bytes, MEMOIZE instead of
+   BINPUT ---- *)
+Definition enc_str4 (s : bytes) : bytes :=
+  let l := N.of_nat (length s) in
+  (if l <? 256 then 140 :: l :: s else 88 :: le_bytes 4 l ++ s) ++ [148].
+Definition enc_item4 (d : pydp) : bytes :=
+  enc_str4 (d_name d) ++ enc_num (d_ts d) ++ enc_num (d_val d) ++ [134; 148; 134; 148].
+Fixpoint enc_items4 (ds : list pydp) : bytes :=
+  match ds with [] => [] | d :: r => enc_item4 d ++ enc_items4 r end.
+Definition body4 (ds : list pydp) : bytes :=
+  [93; 148] ++
+  match ds with
+  | [] => []
+  | [d] => enc_item4 d ++ [97]
+  | _ => [40] ++ enc_items4 ds ++ [101]
+  end ++ [46].
+Definition py_dumps4 (ds : list pydp) : bytes :=
+  let b := body4 ds in
+  [128; 4] ++ (if N.of_nat (length b) <? 4 then b else 149 :: le_bytes 8 (N.of_nat (length b)) ++ b).
